@@ -230,14 +230,14 @@ func errorText(obj *object, name, undefinedDefault string) string {
 				}
 				return value.string()
 			}
+			// an accessor or an object value: no script code is run here
+			if vl, ok := obj.value.(ottoError); ok && name == "name" {
+				return vl.name
+			}
 			break
 		}
 	}
-	if name == "name" {
-		if vl, ok := obj.value.(ottoError); ok {
-			return vl.name
-		}
-	}
+	// no such property anywhere on the prototype chain: undefined (15.11.4.4 steps 3-6)
 	return undefinedDefault
 }
 
